@@ -66,7 +66,7 @@ fn well_ordered(l: &Listing) -> bool {
     }
     true
 }
-fn stored(l: &Listing, n: u16) -> bool {
+pub(crate) fn stored(l: &Listing, n: u16) -> bool {
     l.source.get(&Some(n)).is_some()
 }
 fn count(l: &Listing) -> usize {
